@@ -1432,6 +1432,9 @@ class Interp:
             return None
         if f.gen_yields is not None:
             f.gen_yields.append(v)
+            hook = getattr(self, 'on_yield', None)
+            if hook is not None:
+                hook(self, f, v)
             return None
         self.unsupported(e, 'yield outside cm-inline / record mode')
 
